@@ -196,6 +196,12 @@ theorem C08_frame_validate_exact (t : T) (k : Nat) (hk : ∀ j ∈ ids t, j < k)
   (validate_spec pol cs (fun i => i ∈ ids t → i ∈ sharedMut pol t) t k
     (Or.inl ⟨by decide, fun _ hi _ => hi⟩) (fresh_of_bound hk)).1
 
+/- Full statement (FALSE for the code as it is): ∀ i ∈ (validate pol cs t k).writes, i ∉ ids t -/
+theorem C08_frame_validate_full_fails :
+    ¬ (∀ (t : T) (k : Nat), (∀ j ∈ ids t, j < k) → ∀ i ∈ (validate pol cs t k).writes, i ∉ ids t) := by
+  intro h
+  exact absurd (h odictWitness 100 (by decide) 2 (by decide)) (by decide)
+
 theorem C08_frame_validate_partial (t : T) (k : Nat) (hk : ∀ j ∈ ids t, j < k) (hs : sharesWritable t = false) :
     ∀ i ∈ (validate pol cs t k).writes, i ∉ ids t := by
   intro i hi hmem
@@ -264,6 +270,13 @@ theorem C08_frame_parse_object_exact (ds : Kids) (base : Option T) (obj : T) (k 
     simp only [poShared, List.mem_append]; exact Or.inr hi
   · exact fresh_of_bound hk
 
+/- Full statement (FALSE for the code as it is): ∀ i ∈ (parseObject pol cs ds base obj k).writes, i ∉ poArgs ds base obj -/
+theorem C08_frame_parse_object_full_fails :
+    ¬ (∀ (ds : Kids) (base : Option T) (obj : T) (k : Nat), (∀ j ∈ poArgs ds base obj, j < k) →
+        ∀ i ∈ (parseObject pol cs ds base obj k).writes, i ∉ poArgs ds base obj) := by
+  intro h
+  exact absurd (h [] none odictWitness 100 (by decide) 2 (by decide)) (by decide)
+
 theorem C08_frame_parse_object_partial (ds : Kids) (base : Option T) (obj : T) (k : Nat)
     (hk : ∀ j ∈ poArgs ds base obj, j < k)
     (hds : sharesWritableK ds = false) (hbase : ∀ b, base = some b → sharesWritable b = false)
@@ -282,6 +295,12 @@ theorem C08_frame_instantiate_exact (t : T) (k : Nat) (hk : ∀ j ∈ ids t, j <
     ∀ i ∈ (instantiate pol cs metaKeys t k).writes, i ∈ ids t → i ∈ sharedMut pol t :=
   instantiate_spec pol cs metaKeys (fun i => i ∈ ids t → i ∈ sharedMut pol t) t k (by decide) (fun _ hi _ => hi) (fresh_of_bound hk)
 
+/- Full statement (FALSE for the code as it is): ∀ i ∈ (instantiate pol cs metaKeys t k).writes, i ∉ ids t -/
+theorem C08_frame_instantiate_full_fails :
+    ¬ (∀ (t : T) (k : Nat), (∀ j ∈ ids t, j < k) → ∀ i ∈ (instantiate pol cs metaKeys t k).writes, i ∉ ids t) := by
+  intro h
+  exact absurd (h odictWitness 100 (by decide) 2 (by decide)) (by decide)
+
 theorem C08_frame_instantiate_partial (t : T) (k : Nat) (hk : ∀ j ∈ ids t, j < k) (hs : sharesWritable t = false) :
     ∀ i ∈ (instantiate pol cs metaKeys t k).writes, i ∉ ids t := by
   intro i hi hmem
@@ -295,6 +314,11 @@ theorem C08_frame_instantiate_partial (t : T) (k : Nat) (hk : ∀ j ∈ ids t, j
     declared defaults, every writable container of the namespace handed out is new, and therefore whatever a
     later parse / dump / instantiation (the worst-case mutator, any mode) writes into that namespace never
     reaches `action.default`. -/
+/- Full statement (FALSE for the code as it is): the same without `hs` — an OrderedDict default is handed out itself:
+   `(getDefaults pol cs [("od", T.odict 2 [("a", T.list 3 [.atom 1])])] 100)` has the declared OrderedDict 2 among its writes. -/
+theorem C08_defaults_unchanged_full_fails :
+    2 ∈ (getDefaults pol cs [("od", T.odict 2 [("a", T.list 3 [.atom 1])])] 100).writes := by decide
+
 theorem C08_defaults_unchanged (ds : Kids) (k : Nat) (hk : ∀ j ∈ idsK ds, j < k) (hs : sharesWritableK ds = false)
     (m : Mode) :
     (∀ i ∈ (getDefaults pol cs ds k).writes, i ∉ idsK ds) ∧
